@@ -268,7 +268,8 @@ func runC17(m *Sim) {
 		if len(st.Servers) != len(model.servers) {
 			m.Fail("C17.cli-adopt", site, "client knows %d servers, the signature rules give %d", len(st.Servers), len(model.servers))
 		}
-		for k, e := range model.servers {
+		for _, k := range sortedPubKeys(model.servers) {
+			e := model.servers[k]
 			if got, ok := st.Servers[k]; !ok || got != e {
 				m.Fail("C17.cli-adopt", site, "client entry for server %s is %+v (present=%v), the signature rules give %+v", RoleOf(k), got, ok, e)
 			}
@@ -286,7 +287,8 @@ func runC17(m *Sim) {
 		if len(fm) != len(model.servers) {
 			m.Fail("C17.cli-persist", site, "gcaServers.dat holds %d servers, the adopted list has %d", len(fm), len(model.servers))
 		}
-		for k, e := range model.servers {
+		for _, k := range sortedPubKeys(model.servers) {
+			e := model.servers[k]
 			if fm[k] != e {
 				m.Fail("C17.cli-persist", site, "gcaServers.dat entry for %s is %+v, adopted %+v", RoleOf(k), fm[k], e)
 			}
